@@ -322,10 +322,10 @@ impl FileSpec {
 
         let new_path = self.as_pathbuf(Some(infix));
         let new_path_with_gz = {
-            let mut new_path_with_gz = new_path.clone();
-            new_path_with_gz
-                .set_extension([self.o_suffix.as_deref().unwrap_or(""), ".gz"].concat());
-            new_path_with_gz
+            // append ".gz" to the complete file name (which may or may not have a suffix)
+            let mut file_name = new_path.file_name().unwrap(/*ok*/).to_os_string();
+            file_name.push(".gz");
+            new_path.with_file_name(file_name)
         };
 
         // if collision would occur (new_path or compressed new_path exists already),
